@@ -246,11 +246,11 @@ func (c *Contracts) parseFile(path string) error {
 		case "ghost":
 			// ghost field strings.Builder.content Str
 			fs := strings.Fields(rest)
-			if len(fs) != 3 || fs[0] != "field" {
+			if len(fs) < 3 || fs[0] != "field" {
 				return fmt.Errorf("%s: bad ghost decl", it.pos)
 			}
 			j := strings.LastIndex(fs[1], ".")
-			c.Ghost[fs[1]] = &GhostField{Struct: fs[1][:j], Name: fs[1][j+1:], Sort: fs[2]}
+			c.Ghost[fs[1]] = &GhostField{Struct: fs[1][:j], Name: fs[1][j+1:], Sort: strings.Join(fs[2:], " ")}
 		case "closed":
 			// closed datum.Datum = *datum.Int, *datum.Float
 			i := strings.Index(rest, "=")
@@ -292,8 +292,17 @@ func (c *Contracts) parseFile(path string) error {
 					return fmt.Errorf("%s: unknown func flag %q", it.pos, fl)
 				}
 			}
-			if _, dup := c.Funcs[fc.Name]; dup {
-				return fmt.Errorf("%s: duplicate contract for %s", it.pos, fc.Name)
+			if prev, dup := c.Funcs[fc.Name]; dup {
+				// a further `func` item for the same function (typically more `case`s in another file) extends it
+				if len(prev.Cases) == 0 && len(fc.Props) > 0 {
+					return fmt.Errorf("%s: duplicate contract for %s", it.pos, fc.Name)
+				}
+				for _, p := range fc.Props {
+					if !hasProp(prev.Props, p) {
+						prev.Props = append(prev.Props, p)
+					}
+				}
+				fc = prev
 			}
 			c.Funcs[fc.Name] = fc
 			curFunc, curCase, curLemma = fc, nil, nil
